@@ -65,11 +65,15 @@ def _small(d, hi):
     raise HarnessError("offset outside segment")
 
 
+try:                                    # imported eagerly: never while a ModelFS is installed
+    from crosshair.tracers import NoTracing, is_tracing
+except ImportError:                     # pragma: no cover
+    NoTracing = is_tracing = None
+
+
 def _is_real_bytes(s):
     """type() is patched by CrossHair to answer ``bytes`` for symbolic byte strings too."""
-    try:
-        from crosshair.tracers import NoTracing, is_tracing
-    except ImportError:
+    if is_tracing is None:
         return type(s) is bytes
     if not is_tracing():
         return type(s) is bytes
@@ -244,6 +248,11 @@ class SymBuf(bytes):
         for s in self.segs:
             out += (FILL_BYTE * int(s.n)) if _is_fill(s) else bytes(s)
         return out
+
+    def __buffer__(self, flags):
+        """C-level consumers (memoryview(), pathlib.write_bytes) get the expanded bytes; that
+        concretises symbolic lengths, which is what any C boundary does anyway."""
+        return memoryview(self.concrete())
 
     def concrete_if_plain(self):
         out = b""
